@@ -60,7 +60,7 @@ def parseTag? (s : String) : Option TagIn :=
 
 def parseEvent? (toks : List String) : Option Event :=
   match toks with
-  | pre :: hm :: inv :: ts :: cnt :: vals :: hist :: uniq :: tags => do
+  | pre :: hm :: inv :: ts :: cnt :: vals :: hist :: uniq :: hs :: tags => do
     let pre ← pre.toInt?
     let hm ← parseBool? hm
     let ts ← ts.toNat?
@@ -68,8 +68,9 @@ def parseEvent? (toks : List String) : Option Event :=
     let vals ← (parseList vals).mapM parseXR?
     let hist ← (parseList hist).mapM parseHistEntry?
     let uniq ← parseIntList? uniq
+    let hs ← hs.toNat?
     let tags ← (if tags = ["-"] then some [] else tags.mapM parseTag?)
-    pure { pre := pre, hasMeta := hm, invalid := inv, ts := ts, counter := cnt, values := vals, hist := hist, uniq := uniq, tags := tags }
+    pure { pre := pre, hasMeta := hm, invalid := inv, ts := ts, counter := cnt, values := vals, hist := hist, uniq := uniq, tags := tags, hashShard := hs }
   | _ => none
 
 def showRat (q : Rat) : String := if q.den = 1 then toString q.num else s!"{q.num}/{q.den}"
@@ -111,7 +112,7 @@ def step (s : St) (toks : List String) : St × List String :=
   | "ev" :: rest =>
     match parseEvent? rest with
     | some e =>
-      let st' := applyEvent s.cfg s.store e
+      let st' := applyEventH s.cfg s.store e
       ({ s with store := st' }, storeRows st')
     | none => (s, ["bad-op"])
   | _ => (s, ["bad-op"])
